@@ -112,9 +112,19 @@ func (c *c05Case) files() (Files, map[string]any) {
 		page = `<div id="inc">` + inc(c.AForm) + `</div><div id="inc2">` + inc("omit") + `</div>` + leak
 	case "infor":
 		page = `<div id="inc"><section v-for="it in two">` + inc(c.AForm) + `</section></div>` + leak
+	case "inforsame":
+		// the loop variable has the name of the prop it is bound to (<x v-for="a in xs" :a="a">)
+		page = `<div id="inc"><section v-for="a in pair">` + inc("bound:a") + `</section></div>` + leak
+	case "inforself":
+		// v-for on the include tag itself
+		if c.Short {
+			page = `<div id="inc"><comp-box v-for="a in pair" :a="a"></comp-box></div>` + leak
+		} else {
+			page = `<div id="inc"><template v-for="a in pair" include="` + c05Comp + `" :a="a"></template></div>` + leak
+		}
 	}
 	f["page.vuego"] = page
-	data := map[string]any{"o": "OUT", "two": []int{0, 1}}
+	data := map[string]any{"o": "OUT", "two": []int{0, 1}, "pair": []string{"x", "y"}}
 	for n, v := range c05Bound {
 		if n != "missing" {
 			data[n] = v.V
@@ -187,6 +197,9 @@ func (c *c05Case) Run(ctx *core.Ctx) {
 
 	// --- required
 	wa, aProvided, aDefined := c.wantA(c.AForm)
+	if c.Shape == "inforsame" || c.Shape == "inforself" {
+		aProvided, aDefined = true, true // bound to the loop variable (strings "x", "y")
+	}
 	bProvided := c.BForm != "omit"
 	reqA := c.Req != "none"
 	reqB := c.Req == "a,b" || c.Req == "a+b"
@@ -262,6 +275,26 @@ func (c *c05Case) Run(ctx *core.Ctx) {
 			ctx.Violation(kind, where+"/."+class, trig, fmt.Sprintf("[%s] .%s = %q want %q\n%s out %q", cfg, class, got, want, files, clip(out, 400)))
 		}
 	}
+	if c.Shape == "inforsame" || c.Shape == "inforself" {
+		w := []string{"x", "y"}
+		if c.FmA {
+			w = []string{"FM_A", "FM_A"}
+		}
+		chk("prop-value", "pa", inc, w)
+		leak := htmlcmp.ByID(nodes, "leak")
+		wl := ""
+		if c.IncA {
+			wl = "INC_A"
+		}
+		if leak == nil {
+			ctx.Violation("component-lost", where, trig, fmt.Sprintf("no #leak in %q", out))
+			return
+		}
+		chk("leak", "la", leak, []string{wl})
+		chk("leak", "lb", leak, []string{""})
+		ctx.Outcome(out)
+		return
+	}
 	chk("prop-value", "pa", inc, rep(c05Str(wa)))
 	wt := "<nil>"
 	if wa != nil {
@@ -334,6 +367,18 @@ func init() {
 				aForms = append(aForms, "bound:"+n)
 			}
 			aForms = append(aForms, "vbind:int7", "vbind:zero", "vbind:str")
+			for _, shape := range []string{"inforsame", "inforself"} {
+				for _, short := range []bool{false, true} {
+					for _, b := range []string{"omit", "static", "bound"} {
+						for _, incA := range []bool{false, true} {
+							for _, fmA := range []bool{false, true} {
+								emit(&c05Case{AForm: "bound:a", BForm: b, IncA: incA, FmA: fmA, Req: "none", Shape: shape, Short: short})
+								emit(&c05Case{AForm: "bound:a", BForm: b, IncA: incA, FmA: fmA, Req: "a", Shape: shape, Short: short})
+							}
+						}
+					}
+				}
+			}
 			for _, shape := range []string{"single", "twice", "infor", "nested"} {
 				for _, short := range []bool{false, true} {
 					for _, a := range aForms {
